@@ -1072,6 +1072,20 @@ func (f *Frame) execBinOp(ins *ssa.BinOp, st *State) Value {
 		if x.Sort == sortBool {
 			break
 		}
+		if ins.Op == token.AND {
+			// x & 1 (flag test on non-negative values): parity
+			if c, ok := isIntConst(y); ok && c == 1 {
+				return mk("mod", sortInt, x, tInt(2))
+			}
+			if c, ok := isIntConst(x); ok && c == 1 {
+				return mk("mod", sortInt, y, tInt(2))
+			}
+			if cx, ok := isIntConst(x); ok {
+				if cy, ok := isIntConst(y); ok {
+					return tInt(cx & cy)
+				}
+			}
+		}
 		f.note("bitwise operator abstracted as uninterpreted function")
 		r := uf("bitop_"+sanitize(ins.Op.String()), sortInt, x, y)
 		f.addHyp(st.pc, typeFact(r, ins.Type()))
